@@ -28,12 +28,14 @@ typedef std::vector<unsigned char> Bytes;
 // ---------------------------------------------------------------------------------------------- guard page
 static sigjmp_buf g_jb;
 static volatile sig_atomic_t g_armed = 0;
-static unsigned char *g_map = nullptr;      // GPAGES accessible pages followed by one PROT_NONE page
+static unsigned char *g_map = nullptr;      // GPAGES accessible pages followed by one PROT_NONE page (source strings)
+static unsigned char *g_dmap = nullptr;     // the same for destinations: a destination of n bytes ENDS at the guard page,
+                                            // so a write at index >= n faults - also for n == 0 (malloc(0) is a 1-byte block for ASan)
 static const size_t PAGE = 4096, GPAGES = 2;
 static struct sigaction g_old;
 static void onSegv(int sig, siginfo_t *si, void *uc) {
   unsigned char *a = (unsigned char *)si->si_addr;
-  if (g_armed && a >= g_map + GPAGES * PAGE && a < g_map + (GPAGES + 1) * PAGE) { g_armed = 0; siglongjmp(g_jb, 1); }
+  if (g_armed && ((a >= g_map + GPAGES * PAGE && a < g_map + (GPAGES + 1) * PAGE) || (a >= g_dmap + GPAGES * PAGE && a < g_dmap + (GPAGES + 1) * PAGE))) { g_armed = 0; siglongjmp(g_jb, 1); }
   if (g_old.sa_flags & SA_SIGINFO) { if (g_old.sa_sigaction) g_old.sa_sigaction(sig, si, uc); }
   else if (g_old.sa_handler != SIG_DFL && g_old.sa_handler != SIG_IGN) g_old.sa_handler(sig);
   signal(SIGSEGV, SIG_DFL); raise(SIGSEGV);
@@ -41,6 +43,8 @@ static void onSegv(int sig, siginfo_t *si, void *uc) {
 static void guardInit() {
   g_map = (unsigned char *)mmap(nullptr, (GPAGES + 1) * PAGE, PROT_READ | PROT_WRITE, MAP_PRIVATE | MAP_ANONYMOUS, -1, 0);
   if (g_map == MAP_FAILED || mprotect(g_map + GPAGES * PAGE, PAGE, PROT_NONE)) { perror("mmap"); exit(2); }
+  g_dmap = (unsigned char *)mmap(nullptr, (GPAGES + 1) * PAGE, PROT_READ | PROT_WRITE, MAP_PRIVATE | MAP_ANONYMOUS, -1, 0);
+  if (g_dmap == MAP_FAILED || mprotect(g_dmap + GPAGES * PAGE, PAGE, PROT_NONE)) { perror("mmap"); exit(2); }
   struct sigaction sa; memset(&sa, 0, sizeof sa); sa.sa_sigaction = onSegv; sa.sa_flags = SA_SIGINFO | SA_NODEFER;
   sigemptyset(&sa.sa_mask); sigaction(SIGSEGV, &sa, &g_old);
 }
@@ -238,11 +242,20 @@ static void opAddVar(int fill, int max, int uni, int chars, int junk, const Byte
 }
 
 // ---------------------------------------------------------------------------------------------- get ops
-struct GetRes { bool ret; long size; int idx; Bytes dst; };
+struct GetRes { bool ret = false; long size = 0; int idx = 0; Bytes dst; bool fault = false; };
+// destination of n bytes whose end is the guard page
+static char *guardDst(size_t n, int dj) { char *p = (char *)(g_dmap + GPAGES * PAGE - n); if (n) memset(p, dj, n); return p; }
 typedef std::function<bool(const tN2kMsg &, char *, size_t &, int &)> GetFn;   // (msg, buf, size inout, idx inout)
-static GetRes runGetOn(const tN2kMsg &m, size_t n, int dj, int idx, const GetFn &f) {
-  char *buf = (char *)malloc(n); if (n) memset(buf, dj, n);
-  GetRes g; size_t sz = n; g.idx = idx; g.ret = f(m, buf, sz, g.idx); g.size = (long)sz;
+static GetRes runGetOn(const tN2kMsg &m, size_t n, int dj, int idx, const GetFn &f, bool guard) {
+  GetRes g; size_t sz = n; g.idx = idx;
+  if (guard || n == 0) {     // a zero-size destination is always the (non-null) guard address itself
+    char *buf = guardDst(n, dj);
+    if (sigsetjmp(g_jb, 1) == 0) { g_armed = 1; g.ret = f(m, buf, sz, g.idx); g_armed = 0; g.size = (long)sz; g.dst.assign((unsigned char *)buf, (unsigned char *)buf + n); }
+    else { g.fault = true; g.dst.assign(n, 0); }
+    return g;
+  }
+  char *buf = (char *)malloc(n); memset(buf, dj, n);
+  g.ret = f(m, buf, sz, g.idx); g.size = (long)sz;
   g.dst.assign((unsigned char *)buf, (unsigned char *)buf + n); free(buf); return g;
 }
 static tN2kMsg *msgOf(const Bytes &data, int junk) {
@@ -254,7 +267,13 @@ static tN2kMsg *msgOf(const Bytes &data, int junk) {
 static GetRes doGet(const char *what, const Bytes &data, int junk, size_t n, int dj, int idx, const GetFn &f, bool text = true) {
   tN2kMsg *m1 = msgOf(data, junk), *m2 = msgOf(data, (junk + 97) & 255);
   std::vector<unsigned char> snap((unsigned char *)m1, (unsigned char *)m1 + sizeof(tN2kMsg));
-  GetRes a = runGetOn(*m1, n, dj, idx, f), b = runGetOn(*m2, n, dj, idx, f);
+  GetRes gd = runGetOn(*m1, n, dj, idx, f, true);   // destination in front of the guard page: a write at index >= n is caught
+  if (gd.fault) {
+    C.fail(std::string("C16:") + what + (n == 0 ? ":dest-overrun:size0" : ":dest-overrun"), "wrote behind a destination of %zu bytes (Index %d, DataLen %zu)", n, idx, data.size());
+    C.count("fault_destWrite"); delete m1; delete m2; return gd;
+  }
+  GetRes a = runGetOn(*m1, n, dj, idx, f, false), b = runGetOn(*m2, n, dj, idx, f, false);   // exact-size heap block (ASan)
+  if (a.ret != gd.ret || a.size != gd.size || a.idx != gd.idx || a.dst != gd.dst) C.fail(std::string("C16:") + what + ":nondeterministic", "guard-page run and malloc run differ");
   if (memcmp(m1, snap.data(), sizeof(tN2kMsg))) C.fail(std::string("C16:") + what + ":message-modified", "const get changed the message");
   if (a.ret != b.ret || a.size != b.size || a.idx != b.idx || a.dst != b.dst)
     C.fail(std::string("C16:") + what + ":stale-read", "result depends on payload bytes at index >= DataLen=%zu", data.size());
@@ -263,6 +282,7 @@ static GetRes doGet(const char *what, const Bytes &data, int junk, size_t n, int
   delete m1; delete m2; return a;
 }
 static void outGet(const GetRes &g, bool withSize) {
+  if (g.fault) { C.out("fault destWrite"); return; }
   if (withSize) C.out("%d %ld %d %s", g.ret ? 1 : 0, g.size, g.idx, hex(g.dst.data(), g.dst.size()).c_str());
   else C.out("%d %d %s", g.ret ? 1 : 0, g.idx, hex(g.dst.data(), g.dst.size()).c_str());
 }
@@ -281,7 +301,7 @@ static void opRtStr(int fill, int max, size_t n, int dj, int junk, const Bytes &
   AddRes r; tN2kMsg *m = nullptr; AddFn f = [&](tN2kMsg &mm, const char *p) { mm.AddStr(p, max); };
   if (!doAdd("addstr", fill, junk, s, f, r, &m)) return;
   Bytes pl(r.data, r.data + std::min(std::max(r.len, 0), 223)); delete m;
-  GetRes g = doGet("getstr", pl, junk, n, dj, fill, fnGetStr2(max, 0xff)); outGet(g, false);
+  GetRes g = doGet("getstr", pl, junk, n, dj, fill, fnGetStr2(max, 0xff)); outGet(g, false); if (g.fault) return;
   if (!has(s, 0xff)) { checkText("C16:rtstr:text", g, n, take(s, max)); C.count("rt_checked"); }
   C.nontrivial("rtstr " + std::to_string(max) + " " + std::to_string(n) + " " + std::to_string(s.size()));
 }
@@ -290,7 +310,7 @@ static void opRtAis(int fill, int max, size_t n, int dj, int junk, const Bytes &
   if (!doAdd("addais", fill, junk, s, f, r, &m)) return;
   Bytes pl(r.data, r.data + std::min(std::max(r.len, 0), 223)); delete m;
   int flen = std::max(r.len - fill, 0);
-  GetRes g = doGet("getstr", pl, junk, n, dj, fill, fnGetStr2(flen, '@')); outGet(g, false);
+  GetRes g = doGet("getstr", pl, junk, n, dj, fill, fnGetStr2(flen, '@')); outGet(g, false); if (g.fault) return;
   if (!has(s, '@')) {
     Bytes e; for (unsigned char c : take(s, std::min(max, 223 - fill))) e.push_back(aisRef(c));
     checkText("C16:rtais:text", g, n, e); C.count("rt_checked");
@@ -304,7 +324,7 @@ static void opRtVar(int fill, int max, int uni, int chars, size_t n, int dj, int
   Bytes pl(r.data, r.data + std::min(std::max(r.len, 0), 223)); delete m;
   Utf8Info u = classify(s);
   checkVarField(r, fill, max, uni, s, u);
-  GetRes g = doGet("getvar", pl, junk, n, dj, fill, fnGetVar(0xff)); outGet(g, true);
+  GetRes g = doGet("getvar", pl, junk, n, dj, fill, fnGetVar(0xff)); outGet(g, true); if (g.fault) return;
   if (u.valid && n > 0) {   // expectation for well-formed text
     int room = std::max(223 - fill - 2, 0);
     Bytes e; bool exact = true;
@@ -346,7 +366,7 @@ static void opRtVar2(int fill, size_t n, int dj, int junk, const Bytes &s) {
   Utf8Info u = classify(s);
   checkVarField(r, fill, 5000, 1, s, u);
   GetFn g3 = [](const tN2kMsg &mm, char *b, size_t &sz, int &i) { return mm.GetVarStr(sz, b, i); };
-  GetRes g = doGet("getvar", pl, junk, n, dj, fill, g3); outGet(g, true);
+  GetRes g = doGet("getvar", pl, junk, n, dj, fill, g3); outGet(g, true); if (g.fault) return;
   // "GetVarStr(AddVarStr s) = s when it fit": well-formed text without 4-byte characters, field and destination large enough
   if (u.valid && n > 0) {
     bool bmp = true; for (uint32_t cp : u.cps) if (cp > 0xFFFF) bmp = false;
@@ -375,7 +395,7 @@ static void opAddBuf(int fill, int junk, const Bytes &b) {
 static void opGetBuf(size_t length, size_t extra, int idx, int dj, int junk, const Bytes &d) {
   size_t n = length + extra;
   GetFn f = [=](const tN2kMsg &m, char *b, size_t &, int &i) { return m.GetBuf(b, length, i); };
-  GetRes g = doGet("getbuf", d, junk, n, dj, idx, f, false); outGet(g, false);
+  GetRes g = doGet("getbuf", d, junk, n, dj, idx, f, false); outGet(g, false); if (g.fault) return;
   bool fit = (size_t)idx + length <= d.size();
   if (g.ret != fit) C.fail("C16:getbuf:ret", "returned %d for Index %d Length %zu DataLen %zu", g.ret, idx, length, d.size());
   if (fit) {
@@ -400,7 +420,7 @@ static void opRtBuf(int fill, int dj, int junk, const Bytes &a, const Bytes &b) 
   { char *p = mallocBuf(a); m->AddBuf(p, a.size()); free(p); }
   { char *p = mallocBuf(b); m->AddBuf(p, b.size()); free(p); }
   int len = m->DataLen, idx = fill;
-  char *x = (char *)malloc(a.size()), *y = (char *)malloc(b.size());
+  char *x = a.size() ? (char *)malloc(a.size()) : guardDst(0, dj), *y = b.size() ? (char *)malloc(b.size()) : guardDst(0, dj);
   if (a.size()) memset(x, dj, a.size()); if (b.size()) memset(y, dj, b.size());
   bool r1 = m->GetBuf(x, a.size(), idx); bool r2 = m->GetBuf(y, b.size(), idx);
   C.out("%d %d %d %d %s %s", len, r1, r2, idx, hex((unsigned char *)x, a.size()).c_str(), hex((unsigned char *)y, b.size()).c_str());
@@ -409,7 +429,7 @@ static void opRtBuf(int fill, int dj, int junk, const Bytes &a, const Bytes &b) 
       C.fail(idx == fill && !a.empty() ? "C16:getbuf:index-not-advanced" : "C16:rtbuf:content", "two byte arrays added and read back in sequence differ (Index %d)", idx);
     C.count("rt_checked");
   }
-  free(x); free(y); delete m;
+  if (a.size()) free(x); if (b.size()) free(y); delete m;
   C.nontrivial("rtbuf " + std::to_string(fill) + " " + std::to_string(a.size()) + " " + std::to_string(b.size()));
 }
 
@@ -424,15 +444,15 @@ static void exec(const std::string &line) {
   else if (k == "addvar" && w.size() == 7) opAddVar(num(w[1]), num(w[2]), num(w[3]), num(w[4]), num(w[5]), unhex(w[6]));
   else if (k == "getstr1" && w.size() == 6) {
     size_t length = num(w[1]); Bytes d = unhex(w[5]);
-    GetRes g = doGet("getstr1", d, num(w[4]), length + 1, num(w[3]), num(w[2]), fnGetStr1(length)); outGet(g, false);
+    GetRes g = doGet("getstr1", d, num(w[4]), length + 1, num(w[3]), num(w[2]), fnGetStr1(length)); outGet(g, false); if (g.fault) return;
     C.nontrivial(line.substr(0, 60));
   } else if (k == "getstr" && w.size() == 8) {
     Bytes d = unhex(w[7]);
-    GetRes g = doGet("getstr", d, num(w[6]), num(w[1]), num(w[5]), num(w[4]), fnGetStr2(num(w[2]), num(w[3]))); outGet(g, false);
+    GetRes g = doGet("getstr", d, num(w[6]), num(w[1]), num(w[5]), num(w[4]), fnGetStr2(num(w[2]), num(w[3]))); outGet(g, false); if (g.fault) return;
     C.nontrivial(line.substr(0, 60));
   } else if (k == "getvar" && w.size() == 7) {
     Bytes d = unhex(w[6]);
-    GetRes g = doGet("getvar", d, num(w[5]), num(w[1]), num(w[4]), num(w[3]), fnGetVar(num(w[2]))); outGet(g, true);
+    GetRes g = doGet("getvar", d, num(w[5]), num(w[1]), num(w[4]), num(w[3]), fnGetVar(num(w[2]))); outGet(g, true); if (g.fault) return;
     C.nontrivial(line.substr(0, 60));
   } else if (k == "rtstr" && w.size() == 7) opRtStr(num(w[1]), num(w[2]), num(w[3]), num(w[4]), num(w[5]), unhex(w[6]));
   else if (k == "rtais" && w.size() == 7) opRtAis(num(w[1]), num(w[2]), num(w[3]), num(w[4]), num(w[5]), unhex(w[6]));
@@ -659,6 +679,18 @@ int main(int argc, char **argv) {
     else exec(fmt("getbuf %d %d %d %d %d %s", L, (int)R.below(4), idx, (int)R.below(256), (int)R.below(256), hx(d).c_str()));
   }
   C.sample("AddVarStr(str)+GetVarStr at every fill level (lengths 0,1,free-1..free+1,253,254,255,300); AddBuf/GetBuf at every fill level, exhaustive DataLen x Index x Length on small payloads, random large ones");
+  // destination sizes 0 and 1 on every exit of GetVarStr / GetStr: message too short for the header (DataLen 0..2), header at the
+  // very end, empty and invalid length bytes, invalid types, and real text
+  for (int dl = 0; dl <= 6; dl++)
+    for (int lb : {0, 1, 2, 3, 4, 5, 254, 255})
+      for (int ty : {0, 1, 2, 255})
+        for (int n : {0, 1}) {
+          Bytes d(dl); for (auto &c : d) c = (unsigned char)R.range(1, 255);
+          if (dl > 0) d[0] = (unsigned char)lb; if (dl > 1) d[1] = (unsigned char)ty;
+          for (int idx = 0; idx <= (dl == 6 && n == 0 ? 5 : 0); idx++)
+            exec(fmt("getvar %d %d %d %d %d %s", n, (int)R.pick(std::vector<int>{0xff, 0x40}), idx, (int)R.below(256), (int)R.below(256), hx(d).c_str()));
+          if (lb < 6 && ty < 2) exec(fmt("getstr %d %d %d 0 %d %d %s", n, lb, ty ? 0xff : 0x40, (int)R.below(256), (int)R.below(256), hx(d).c_str()));
+        }
   C.sample("read side: getstr1/getstr/getvar on arbitrary payloads (every length byte 0..255 x type {0,1,2,255}), destination sizes 0..80");
   C.finish();
   return 0;
